@@ -4,22 +4,22 @@ package server
 // network, inside a synctest bubble.  Shared by every family.
 
 import (
-	"strconv"
-	"sync/atomic"
-	"log/slog"
 	"context"
 	"crypto/sha256"
 	"encoding/binary"
 	"encoding/json"
 	"fmt"
+	"log/slog"
 	"net"
 	"net/netip"
 	"os"
 	"regexp"
 	"runtime"
 	"sort"
+	"strconv"
 	"strings"
 	"sync"
+	"sync/atomic"
 	"testing"
 	"testing/synctest"
 	"time"
@@ -75,30 +75,30 @@ type simWorld struct {
 	peers    []*simPeer
 	start    time.Time
 
-	mu        sync.Mutex
-	evlog     []string
-	viols     []Violation
-	probes    map[string]int
-	local     map[viewKey]*annRoute
-	tags      map[uint32]*annRoute
-	grReleasedAll  time.Duration // restarting speaker: instant the End-of-RIB condition was first seen to hold (0: not yet)
-	grReleasedPeer map[int]bool  // restarting speaker: peers whose deferral timer has fired
-	tagsPfx   map[string]*annRoute // "tag/prefix" -> announcement, for bursts whose routes share one tag (identical attribute sets)
-	harnessEr string
-	stateFPs  []string
-	checks    int
-	nonEmpty  int
-	opsDone   int
-	cells     map[string]bool
+	mu             sync.Mutex
+	evlog          []string
+	viols          []Violation
+	probes         map[string]int
+	local          map[viewKey]*annRoute
+	tags           map[uint32]*annRoute
+	grReleasedAll  time.Duration        // restarting speaker: instant the End-of-RIB condition was first seen to hold (0: not yet)
+	grReleasedPeer map[int]bool         // restarting speaker: peers whose deferral timer has fired
+	tagsPfx        map[string]*annRoute // "tag/prefix" -> announcement, for bursts whose routes share one tag (identical attribute sets)
+	harnessEr      string
+	stateFPs       []string
+	checks         int
+	nonEmpty       int
+	opsDone        int
+	cells          map[string]bool
 
-	onPeerDown func(*simPeer, string)
-	fam        any
+	onPeerDown  func(*simPeer, string)
+	fam         any
 	bestS       *bestStream
 	preShutdown []func()
-	bfdAllowed map[int]map[uint8]bool
-	bfdSeen    map[int]int
-	finalDump  string
-	stopped    bool
+	bfdAllowed  map[int]map[uint8]bool
+	bfdSeen     map[int]int
+	finalDump   string
+	stopped     bool
 }
 
 func (w *simWorld) now() time.Duration { return time.Since(w.start) }
@@ -320,10 +320,10 @@ func (w *simWorld) addPeer(c *PeerCfg) error {
 // ---------------------------------------------------------------- run driver
 
 type familyImpl struct {
-	setup func(w *simWorld) error            // after server start and peers configured
+	setup func(w *simWorld) error              // after server start and peers configured
 	op    func(w *simWorld, actor int, op *Op) // execute one op (in the actor's goroutine)
-	check func(w *simWorld, phase int)       // quiescent check
-	final func(w *simWorld)                  // after shutdown
+	check func(w *simWorld, phase int)         // quiescent check
+	final func(w *simWorld)                    // after shutdown
 }
 
 var families = map[string]*familyImpl{}
